@@ -317,7 +317,9 @@ def _feed(inst, data, rng, style):
             continue
         if kind == "vec" or left == 1:
             x = np.array(data[pos]); x = relayout(rng, x); x.setflags(write=False)
-            inst.accumulate(x)
+            r_ax = rng.random()
+            # (the only axis of a vector is 0 and -1 alike)
+            inst.accumulate(x) if r_ax < 0.6 else inst.accumulate(x, 0) if r_ax < 0.8 else inst.accumulate(x, axis=-1)
             pos += 1
             calls.append("vec")
         elif kind == "t2":
@@ -424,7 +426,7 @@ def run_case(case, rec, mon=None):
                     x = np.round(x)
                 return x.astype(pdtype)
             if pk == "vec":
-                probes.append((draw(), -1))
+                probes.append((draw(), int(rng.choice([-1, 0]))))
             elif pk == "t2":
                 probes.append((draw(int(rng.integers(1, 9))), int(rng.choice([-1, 1]))))
             elif pk == "t2T":
